@@ -27,7 +27,10 @@ type c21Opts struct {
 	Optimize bool
 	// EmptyNodes allows arrows over ranges that can derive the empty string (finding [C21-empty-node]).
 	EmptyNodes bool
-	Findings   bool
+	// SepReported allows a reported terminal as list separator (finding [C21-separator-token]).
+	SepReported bool
+	// TokenSetName names one category `TokenSet` (finding [C21-tokenset-interface]).
+	TokenSetName bool
 }
 
 func c21TM(r *rand.Rand, g *Gram, name string, o *c21Opts) string {
@@ -60,10 +63,10 @@ func c21TM(r *rand.Rand, g *Gram, name string, o *c21Opts) string {
 	}
 	start := g.Inputs[0].Sym
 	nullable := g.Nullable()
-	// list separator: a reported terminal only in findings mode (class [C21-separator-token])
+	// list separator: a reported terminal only once the probe of class [C21-separator-token] passes
 	sepTerm := 0
 	for tries := 0; tries < 20 && sepTerm == 0; tries++ {
-		if t := 1 + r.Intn(g.NT-1); !reported[t] || o.Findings {
+		if t := 1 + r.Intn(g.NT-1); !reported[t] || o.SepReported {
 			sepTerm = t
 		}
 	}
@@ -91,6 +94,10 @@ func c21TM(r *rand.Rand, g *Gram, name string, o *c21Opts) string {
 	for _, lhs := range order {
 		if allTyped[lhs] && lhs != start && r.Intn(3) != 0 {
 			cat[lhs] = "Cat" + g.SymName(lhs)
+			if o.TokenSetName {
+				cat[lhs] = "TokenSet"
+				o.TokenSetName = false
+			}
 		}
 	}
 	// element decoration; the second result says whether the element can derive the empty string
@@ -519,7 +526,6 @@ type c21Types struct {
 	cats     map[string][]string
 	injected map[int]bool // NodeType values of space tokens (comments): excluded from coverage
 	reported map[int]bool // NodeType values of reported grammar terminals
-	findings bool
 	soft     int
 }
 
@@ -539,7 +545,6 @@ func newC21Types(gp *GenParser) *c21Types {
 			t.reported[t.index[mt.Name]] = true
 		}
 	}
-	t.findings = os.Getenv("VERIF_FINDINGS") != ""
 	return t
 }
 
@@ -705,9 +710,6 @@ func inInts(l []int, v int) bool {
 // answer (`r0 r1 …`, one entry per field: indices, `-` absent, `.` empty list, `!` panic).
 func (t *c21Types) judgeNode(n *c21Node) (viol []string, answer string) {
 	v, s, a := t.judgeNode2(n)
-	if t.findings {
-		v = append(v, s...)
-	}
 	t.soft += len(s)
 	return v, a
 }
@@ -835,47 +837,121 @@ type c21Item struct {
 	gp     *GenParser
 	t      *c21Types
 	o      *c21Opts
-	inputs []string // fixed inputs (witness grammars) instead of generated sentences
+	// fieldsOnly: the grammar has a possibly-empty node (only generated once the [C21-empty-node] probe
+	// passes): the non-emptiness condition of checkTypes does not apply, `fields` = checkFields is asked.
+	fieldsOnly bool
 }
 
-// c21Witnesses: minimal grammars of the known defect classes, run (and flagged) with VERIF_FINDINGS=1.
-var c21Witnesses = []struct{ rules, inputs string }{
-	{"S -> Root : ( -> Emp) ('a' -> X) 'b' ;", "a b"},                                   // [C21-empty-node] swallowed by the next sibling
-	{"S -> Root : ('a' (N -> T) -> P) 'b' ;\nN : 'a' | %empty ;", "a b"},                 // [C21-empty-node] leaves its parent
-	{"%inject ',' -> Comma;\nS -> Root : (E separator ',')+ ;\nE -> E : 'a' ;", "a , a"}, // [C21-separator-token]
-	{"S -> Root : (A -> TA) | 'c' (B -> TB) ;\nA : ('a' -> X) B ;\nB : A ('b' -> Y) | (',' -> Z) ;", "c ,"}, // [C21-required-list-empty]
-	{"%interface TokenSet;\nS -> Root : 'b' E? ;\nE -> TokenSet : 'a' -> A ;", "b"},      // [C21-tokenset-interface]
+// c21Witnesses: one minimal grammar + input per known defect class. They are run against the real code at
+// start-up (c21Probe); while a class misbehaves it is reported once with its token and the random stream
+// avoids exactly that class; once the probe passes the stream includes the class.
+var c21Witnesses = []struct{ class, rules, input, note string }{
+	{"C21-empty-node", "S -> Root : ( -> Emp) ('a' -> X) 'b' ;", "a b",
+		"the AST builder (go_ast_parse.go.tmpl addNode) nests by offsets: the empty node Emp[0,0) becomes a child of the following sibling X[0,1)"},
+	{"C21-empty-node", "S -> Root : ('a' (N -> T) -> P) 'b' ;\nN : 'a' | %empty ;", "a b",
+		"the AST builder nests by offsets: the empty node T[2,2) at the end of P[0,2) is left outside its parent"},
+	{"C21-separator-token", "%inject ',' -> Comma;\nS -> Root : (E separator ',')+ ;\nE -> E : 'a' ;", "a , a",
+		"syntax/types.go exprPhrase ignores the separator (List.Sub[1]): the reported separator nodes belong to no field"},
+	{"C21-required-list-empty", "S -> Root : (A -> TA) | 'c' (B -> TB) ;\nA : ('a' -> X) B ;\nB : A ('b' -> Y) | (',' -> Z) ;", "c ,",
+		"syntax/types.go nontermPhrase caches the phrase of the SCC root for every member: TB is declared `(X)+`"},
+	{"C21-tokenset-interface", "%interface TokenSet;\nS -> Root : 'b' E? ;\nE -> TokenSet : 'a' -> A ;", "b",
+		"go_ast.go.tmpl omits `func (NilNode) tokenSetNode()` for any category NAMED TokenSet, also a user-declared one"},
 }
 
-func c21WitnessItems() []*c21Item {
-	var items []*c21Item
+func c21WitnessTM(name, rules string) string {
+	return fmt.Sprintf("language %s(go);\n\nlang = %q\npackage = \"gp/%s\"\neventBased = true\neventFields = true\neventAST = true\n\n::lexer\n\nWhiteSpace: /[ ]+/ (space)\n'a': /a/\n'b': /b/\n'c': /c/\n',': /,/\n\n::parser\n\n%%input S;\n\n%s\n", name, name, name, rules)
+}
+
+// c21Probe runs the witnesses on the real code and returns the set of classes that still misbehave.
+// Hard classes are reported once (c.Violate, token first); [C21-required-list-empty] is only counted: the
+// generated Go API does not mark a list as required (the accessor returns a slice for `(X)+` and `(X)*`
+// alike; IsRequired of a list field only shows in the descriptor comment of listener.go), so nothing a
+// user can rely on breaks.
+func c21Probe(c *Ctx) map[string]bool {
+	bad := map[string]bool{}
+	b, err := newAstBatch()
+	if err != nil {
+		c.Notes = append(c.Notes, err.Error())
+		return bad
+	}
+	defer b.Close()
+	type pitem struct {
+		w  int
+		gp *GenParser
+		t  *c21Types
+	}
+	var items []pitem
 	for i, w := range c21Witnesses {
 		name := fmt.Sprintf("w%d", i)
-		tm := fmt.Sprintf("language %s(go);\n\nlang = %q\npackage = \"gp/%s\"\neventBased = true\neventFields = true\neventAST = true\n\n::lexer\n\nWhiteSpace: /[ ]+/ (space)\n'a': /a/\n'b': /b/\n'c': /c/\n',': /,/\n\n::parser\n\n%%input S;\n\n%s\n", name, name, name, w.rules)
-		gp := compileTM(name, tm, TMOpts{})
-		if gp.Err != nil || gp.G.Parser.Types == nil {
+		gp := compileTM(name, c21WitnessTM(name, w.rules), TMOpts{})
+		if gp.Err != nil || gp.G == nil || gp.G.Parser.Types == nil {
+			// the compiler no longer accepts the witness: the class cannot occur
+			c.Count("probe [" + w.class + "]: witness rejected by the compiler")
 			continue
 		}
-		items = append(items, &c21Item{g: c21Gram(gp), gp: gp, t: newC21Types(gp), o: &c21Opts{Findings: true}, inputs: strings.Split(w.inputs, "|")})
+		b.Add(gp)
+		items = append(items, pitem{i, gp, newC21Types(gp)})
 	}
-	return items
+	if len(items) == 0 {
+		return bad
+	}
+	if err := b.Build(); err != nil {
+		c.Violate("C21 probe grammars do not build: "+firstN(err.Error(), 600), items[0].gp.TM)
+		for _, w := range c21Witnesses {
+			bad[w.class] = true
+		}
+		return bad
+	}
+	var reqs []astReq
+	for _, it := range items {
+		reqs = append(reqs, astReq{Parser: it.gp.Name, Text: c21Witnesses[it.w].input})
+	}
+	outs := b.Run(reqs)
+	for i, it := range items {
+		w := c21Witnesses[it.w]
+		nodes, ok := c21ParseOut(outs[i])
+		var viol, soft []string
+		if !ok {
+			viol = append(viol, "ast runner answered "+firstN(outs[i], 100))
+		}
+		for k := range nodes {
+			v, s, _ := it.t.judgeNode2(&nodes[k])
+			viol = append(viol, v...)
+			soft = append(soft, s...)
+		}
+		input := fmt.Sprintf("input %q, tree %s; rules: %s ; types: %s", w.input, it.t.describe(nodes), strings.ReplaceAll(w.rules, "\n", " "), it.t.descriptors())
+		switch {
+		case len(viol) > 0 && w.class == "C21-required-list-empty":
+			bad[w.class] = true
+			c.Violate("["+w.class+"] "+viol[0], input)
+		case len(viol) > 0:
+			if !bad[w.class] {
+				c.Violate("["+w.class+"] "+viol[0]+" ("+w.note+")", input)
+			}
+			bad[w.class] = true
+			c.Count("probe [" + w.class + "] fails: class avoided by the generator")
+		case len(soft) > 0:
+			bad[w.class] = true
+			c.Count("probe [" + w.class + "] present: " + soft[0] + " — counted only: the generated Go API does not distinguish `(X)+` from `(X)*` (slice result; IsRequired of a list is only a comment in listener.go)")
+		default:
+			c.Count("probe [" + w.class + "] passes: class included in the random stream")
+		}
+	}
+	return bad
 }
 
 func c21(c *Ctx) {
-	c.Rule = "random CFGs in which every nonterminal is reachable from the start symbol (2-5 nonterminals, 2-5 terminals, empty rules, back references = recursion; LALR(1) conflict-free, all productive) decorated with nested arrows whose node type names are drawn WITH reuse from a pool of 3-8 names (merged phrases, multi-type selectors, fields of equal selector -> FetchAfter chains), named fields f=X / f+=X on single-field elements, optional parts, lists (X+, X*, (X separator t)+, (… -> T)+), categories (%interface on nonterminals whose rules all carry an arrow), reported terminals (%inject on grammar terminals), an injected comment token (placed between tokens of the inputs) and fileNode; compiled by the REAL compiler with eventFields+eventAST (grammars it rejects — overlapping fields, several fields behind an assignment, conflicts introduced by the decoration — are counted and skipped; up to 40 decorations per base grammar). Per grammar: (1) `validate`: Parser.Types + compiled rules/reports -> Lean checkTypes (hypothesis of C21_checkTypes_sound; textmapper.tm and, in the thorough tier, js.tm go through `fields` = checkFields because they contain a possibly-empty node); (2) END TO END, independent of the validator: the generated ast packages are built in one batch and for every sentence of the compiled grammar up to 6 tokens (cap 300) plus 40 random sentences the whole tree is walked and EVERY accessor of EVERY node is called (calls generated from Parser.Types, each under recover) and the factory To<Lang>Node on every node: panic, invalid required node, node outside the receiver's children, node type outside the expanded selector, presence flag mismatch, child (other than an injected token) returned by no accessor -> violation with grammar and input; (3) `access`: what the real accessors returned vs Lean `access` (mirror of the template chain) on the observed child sequence, judged by the property on disagreement; (4) `seqs`: every observed child sequence of a T node must be in L(approx g T) (ties `layout`/ChildSeq to the offset-based tree builder). non-trivial = grammar with a node type of >= 2 fields; distinct by grammar text. AVOIDED CLASSES = findings of this check (VERIF_FINDINGS=1 generates and flags them): [C21-empty-node] a reported range or typed rule that can derive the empty string (the AST builder nests by offsets: an empty node becomes a child of the following sibling or leaves its parent) — grammars whose COMPILED rules contain such a range are skipped; [C21-separator-token] a reported terminal used as a list separator (exprPhrase ignores List.Sub[1], the separator nodes are returned by no accessor) — separators are drawn from unreported terminals; [C21-required-list-empty] a list field declared `(X)+` (IsRequired) that can be empty (phrase cache shared by all members of a recursive SCC) — IsRequired of LIST fields is not used by the accessor template, so this is counted (`soft`), not treated as a violation; [C21-tokenset-interface] an interface the grammar itself names `TokenSet`: the template omits `func (NilNode) tokenSetNode()`, an absent optional field of that category panics — the generator never uses that name. With VERIF_FINDINGS=1 one minimal witness grammar per class is run first."
+	c.Rule = "random CFGs in which every nonterminal is reachable from the start symbol (2-5 nonterminals, 2-5 terminals, empty rules, back references = recursion; LALR(1) conflict-free, all productive) decorated with nested arrows whose node type names are drawn WITH reuse from a pool of 3-8 names (merged phrases, multi-type selectors, fields of equal selector -> FetchAfter chains), named fields f=X / f+=X on single-field elements, optional parts, lists (X+, X*, (X separator t)+, (… -> T)+), categories (%interface on nonterminals whose rules all carry an arrow), reported terminals (%inject on grammar terminals), an injected comment token (placed between tokens of the inputs) and fileNode; compiled by the REAL compiler with eventFields+eventAST (grammars it rejects — overlapping fields, several fields behind an assignment, conflicts introduced by the decoration — are counted and skipped; up to 40 decorations per base grammar). Per grammar: (1) `validate`: Parser.Types + compiled rules/reports -> Lean checkTypes (hypothesis of C21_checkTypes_sound; textmapper.tm and, in the thorough tier, js.tm go through `fields` = checkFields because they contain a possibly-empty node); (2) END TO END, independent of the validator: the generated ast packages are built in one batch and for every sentence of the compiled grammar up to 6 tokens (cap 300) plus 40 random sentences the whole tree is walked and EVERY accessor of EVERY node is called (calls generated from Parser.Types, each under recover) and the factory To<Lang>Node on every node: panic, invalid required node, node outside the receiver's children, node type outside the expanded selector, presence flag mismatch, child (other than an injected token) returned by no accessor -> violation with grammar and input; (3) `access`: what the real accessors returned vs Lean `access` (mirror of the template chain) on the observed child sequence, judged by the property on disagreement; (4) `seqs`: every observed child sequence of a T node must be in L(approx g T) (ties `layout`/ChildSeq to the offset-based tree builder). non-trivial = grammar with a node type of >= 2 fields; distinct by grammar text. KNOWN DEFECT CLASSES: at start-up one minimal witness grammar per class is run against the real code (probe); while a class misbehaves it is reported ONCE with its token and the random stream avoids exactly that class, once its probe passes the stream includes it. [C21-empty-node] a reported range or typed rule that can derive the empty string (the AST builder nests by offsets: an empty node becomes a child of the following sibling or leaves its parent) — avoided by skipping grammars whose COMPILED rules contain such a range; [C21-separator-token] a reported terminal used as a list separator (exprPhrase ignores List.Sub[1], the separator nodes are returned by no accessor) — avoided by drawing separators from unreported terminals; [C21-tokenset-interface] an interface the grammar itself names `TokenSet` (the template omits `func (NilNode) tokenSetNode()`, an absent optional field of that category panics) — avoided by never using that name; [C21-required-list-empty] a list field declared `(X)+` that can be empty (phrase cache shared by all members of a recursive SCC) — COUNTED, not a violation: the generated Go API returns a slice for `(X)+` and `(X)*` alike, IsRequired of a list field only appears in the descriptor comment of listener.go."
 	if f := os.Getenv("TMH_C21_FILE"); f != "" {
 		c21Debug(c, f)
 		return
 	}
-	findings := os.Getenv("VERIF_FINDINGS") != ""
+	bad := c21Probe(c)
 	nG := c.N(40, 480)
 	batchSize := c.N(40, 80)
 	c21Shipped(c)
 	for done := 0; done < nG; done += batchSize {
 		var items []*c21Item
-		if findings && done == 0 {
-			items = c21WitnessItems()
-		}
 		for k := 0; k < batchSize && done+k < nG; k++ {
 			var g *Gram
 			for tries := 0; tries < 40; tries++ {
@@ -885,7 +961,10 @@ func c21(c *Ctx) {
 				if g == nil {
 					continue
 				}
-				o := &c21Opts{Comment: c.Rng.Intn(2) == 0, FileNode: c.Rng.Intn(6) == 0, Optimize: c.Rng.Intn(4) == 0, Findings: findings, EmptyNodes: findings && c.Rng.Intn(2) == 0}
+				o := &c21Opts{Comment: c.Rng.Intn(2) == 0, FileNode: c.Rng.Intn(6) == 0, Optimize: c.Rng.Intn(4) == 0,
+					EmptyNodes:   !bad["C21-empty-node"] && c.Rng.Intn(2) == 0,
+					SepReported:  !bad["C21-separator-token"],
+					TokenSetName: !bad["C21-tokenset-interface"] && c.Rng.Intn(4) == 0}
 				for t := 1; t < g.NT; t++ {
 					if c.Rng.Intn(4) == 0 {
 						o.Reported = append(o.Reported, t)
@@ -900,11 +979,11 @@ func c21(c *Ctx) {
 				if gp.G.Parser.Types == nil || len(gp.G.Parser.Types.RangeTypes) == 0 {
 					continue
 				}
-				if c21HasEmptyRange(gp) && !findings {
+				if c21HasEmptyRange(gp) && bad["C21-empty-node"] {
 					c.Count("avoided: a reported range can derive the empty string [C21-empty-node]")
 					continue
 				}
-				items = append(items, &c21Item{g: c21Gram(gp), gp: gp, t: newC21Types(gp), o: o})
+				items = append(items, &c21Item{g: c21Gram(gp), gp: gp, t: newC21Types(gp), o: o, fieldsOnly: c21HasEmptyRange(gp)})
 				break
 			}
 		}
@@ -1009,13 +1088,6 @@ func c21RunBatch(c *Ctx, items []*c21Item) {
 	var reqs []astReq
 	var metas []*c21Item
 	for _, it := range items {
-		if it.inputs != nil {
-			for _, text := range it.inputs {
-				reqs = append(reqs, astReq{Parser: it.gp.Name, Text: text})
-				metas = append(metas, it)
-			}
-			continue
-		}
 		start := it.g.Inputs[0].Sym
 		for _, w := range c21Sentences(c.Rng, it.g, start, 6, 300, 40) {
 			reqs = append(reqs, astReq{Parser: it.gp.Name, Text: c21Text(c.Rng, it.gp, w, it.o.Comment, it.o.FileNode)})
@@ -1047,7 +1119,7 @@ func c21RunBatch(c *Ctx, items []*c21Item) {
 			viol, ans := it.t.judgeNode(n)
 			if len(viol) > 0 && !violated[it] {
 				violated[it] = true
-				c.Violate(viol[0]+it.classTag(nodes, n, viol[0]), fmt.Sprintf("input %q, node %s[%d,%d) with children (%s); grammar:\n%s\ntypes: %s", text, it.t.typeName(n.typ), n.off, n.end, it.t.kidNames(n), it.gp.TM, it.t.descriptors()))
+				c.Violate(viol[0], fmt.Sprintf("input %q, node %s[%d,%d) with children (%s); grammar:\n%s\ntypes: %s", text, it.t.typeName(n.typ), n.off, n.end, it.t.kidNames(n), it.gp.TM, it.t.descriptors()))
 			}
 			if n.typ < 1 || n.typ > len(it.t.types.RangeTypes) {
 				continue
@@ -1086,7 +1158,11 @@ func c21RunBatch(c *Ctx, items []*c21Item) {
 		}
 		c.Count("grammars validated")
 		c.Debugf("validate %s", it.gp.TM)
-		c.Case(fmt.Sprintf("validate %s %s", it.t.grammarStr(), it.t.typesStr()), "ok", key)
+		op := "validate"
+		if it.fieldsOnly {
+			op = "fields"
+		}
+		c.Case(fmt.Sprintf("%s %s %s", op, it.t.grammarStr(), it.t.typesStr()), "ok", key)
 		if m := seqSeen[it]; len(m) > 0 {
 			var ks []string
 			for k := range m {
@@ -1097,29 +1173,6 @@ func c21RunBatch(c *Ctx, items []*c21Item) {
 			c.Case(fmt.Sprintf("seqs %s %s", it.t.grammarStr(), strings.Join(ks, ";")), "ok", "")
 		}
 	}
-}
-
-// classTag names the known defect class of a failing instance by a predicate on the instance itself
-// (these classes are only generated with VERIF_FINDINGS=1).
-func (it *c21Item) classTag(nodes []c21Node, n *c21Node, viol string) string {
-	for _, x := range nodes {
-		if x.off == x.end {
-			return " [C21-empty-node]"
-		}
-	}
-	if strings.Contains(viol, "panicked") && strings.Contains(it.gp.TM, "%interface TokenSet;") {
-		return " [C21-tokenset-interface]"
-	}
-	if strings.Contains(viol, "is not returned by any accessor") {
-		// the uncovered child is a reported terminal that the grammar uses as a list separator
-		for _, mt := range it.gp.G.Parser.MappedTokens {
-			sym := it.gp.G.Syms[mt.Token]
-			if !sym.Space && strings.Contains(viol, "("+mt.Name+")") && strings.Contains(it.gp.TM, "separator "+sym.Name+")") {
-				return " [C21-separator-token]"
-			}
-		}
-	}
-	return ""
 }
 
 func (t *c21Types) kidNames(n *c21Node) string {
